@@ -98,6 +98,9 @@ def make_pool():
     a(Desc("m33", name="aaa", prio=100, opts=[("H", 0, B), ("o", 0, B)]))  # first by name; chi/theta/iota/kappa later
     a(Desc("m34", name="outer", opts=[("1", 0, B)], outside=True))   # symlink to an object outside the directory
     a(Desc("s01", kind="link", link_to="m06"))                            # second name for zeta's file
+    # second names on the OTHER side of a duplicate's file name (F17-SAMEOBJ-TIE): a19 < m01 < m19, a20 < m02 < m20
+    a(Desc("a19", kind="link", link_to="m19"))
+    a(Desc("a20", kind="link", link_to="m20"))
     # priorities at the ends of int: _cmp_f subtracts them
     a(Desc("m35", name="pmax", prio=2147483647, opts=[("2", 0, B)]))
     a(Desc("m36", name="pmin", prio=-2147483648, opts=[("2", 0, B), ("a", 0, B)]))
